@@ -1,4 +1,4 @@
-/-! Scratch (design phase): C14 — InterfaceBase.__call__/__adapt__ (Python) and IB__call__/IB__adapt__ (C). -/
+/-! C14 model: InterfaceBase.__call__/__adapt__ (Python) and IB__call__/IB__adapt__ (C); core Lean only. -/
 namespace ZI.Adapt
 abbrev V := Nat           -- result values
 abbrev E := Nat           -- exception identities
@@ -126,6 +126,4 @@ theorem callPy_custom (conf : Conform) (provided : Bool) (hooks hooks' : List Ho
     callPy conf provided hooks alt (some c) = callPy conf p' hooks' alt (some c) := by
   cases conf <;> simp [callPy]
 
-#print axioms callC_eq_callPy
-#print axioms callPy_spec
 end ZI.Adapt
